@@ -106,3 +106,53 @@ let () =
             | Some p -> string_of_int (int_of_nat p) | None -> "-1") qs)) adds in
         if out = [] then "-" else Stdlib.String.concat "|" out
     | _ -> "ERR args")
+
+(* ---- the plan / validate / skip / regenerate loop with the seeds' data ----
+   c01.vloop <bail|skip|regen> <min> <avg> <max> <target rows idhex:size,...|-> <seed>*
+     seed = n:<canReflink 0|1>:<idhex>   |   f:<canReflink>:<rows idhex:size,...|->:<data hex|->
+   One validation worker: the first failing seed in plan order is the one marked (choices = []).
+   Answer: "<ok 0|1> <attempts> <plan first:last:src,...|-> <stale> <usable>"   src: 0 = none, 1+k = seed k *)
+let () =
+  let nat s = nat_of_int (int_of_string s) in
+  let rows_of (s : string) : Sequencer.ichunk list =
+    if s = "-" then [] else
+    let off = ref Z.zero in
+    Stdlib.List.map (fun t -> match split ':' t with
+      | [i; sz] ->
+          let st = !off in
+          off := Z.add !off (Z.of_string sz);
+          { Sequencer.c_id = Sha256.id_of_hex i; c_start = n_of_z st; c_size = n_of_string sz }
+      | _ -> failwith "bad row") (split ',' s) in
+  Drv.register "c01.vloop" (fun args -> match args with
+    | act :: mn :: avg :: mx :: rows :: seeds ->
+        let h = Sha256.h_model in
+        let act = match act with "bail" -> Regenerate.Bail | "skip" -> Regenerate.Skip | "regen" -> Regenerate.Regen
+                                | _ -> failwith "bad action" in
+        let d = Discriminator.disc_of_avg (n_of_string avg) in
+        let chunkf data = Regenerate.rows_of_chunks h N0 (Chunker.chunk_all (nat mn) (nat mx) d data) in
+        let ds = Stdlib.List.map (fun s -> match split ':' s with
+          | ["n"; cr; i] -> (Sequencer.SNull ((cr = "1"), Sha256.id_of_hex i), [])
+          | ["f"; cr; r; data] -> (Sequencer.SFile ((cr = "1"), false, rows_of (Stdlib.String.concat ":" [r])), bytes_of_hex data)
+          | "f" :: cr :: rest ->
+              (* rows contain ':' themselves: the data is the last field *)
+              let rec last = function [x] -> ([], x) | x :: r -> let (a, b) = last r in (x :: a, b) | [] -> failwith "bad seed" in
+              let (r, data) = last rest in
+              (Sequencer.SFile ((cr = "1"), false, rows_of (Stdlib.String.concat ":" r)), bytes_of_hex data)
+          | _ -> failwith "bad seed") seeds in
+        let idx = rows_of rows in
+        let fuel = nat_of_int (Stdlib.List.length ds + 3) in
+        (match Regenerate.vloop h chunkf act fuel ds idx [] with
+         | None -> "FUEL"
+         | Some o ->
+             let src c = match c.Sequencer.cd_src with
+               | None -> 0
+               | Some (Sequencer.FromFile (k, _)) -> 1 + int_of_nat k
+               | Some (Sequencer.FromNull (k, _, _)) -> 1 + int_of_nat k in
+             let plan = Stdlib.List.map (fun c ->
+               string_of_int (int_of_nat c.Sequencer.cd_first) ^ ":" ^ string_of_int (int_of_nat c.Sequencer.cd_last)
+               ^ ":" ^ string_of_int (src c)) o.Regenerate.o_plan in
+             (if o.Regenerate.o_ok then "1" else "0") ^ " " ^ string_of_int (int_of_nat o.Regenerate.o_attempts) ^ " "
+             ^ (if plan = [] then "-" else Stdlib.String.concat "," plan) ^ " "
+             ^ string_of_int (int_of_nat (Regenerate.stale h ds)) ^ " "
+             ^ string_of_int (int_of_nat (Regenerate.dusable ds)))
+    | _ -> "ERR args")
